@@ -719,6 +719,131 @@ def run (ignore : Bool) (ops : List Op) (src : List (Ev Val)) : Run :=
 
 end Impl
 
+/-! ## Reference semantics of `apply` / `select` **with batch sizes**
+
+A record of a batched operator carries *columns*: the value under every input key is a `list` /
+`tuple` of rows, all equally long; row `i` of the record is the tuple of the `i`-th elements.
+`fn_batch_size = fb` asks that the function be called on groups of `fb` consecutive rows (columns of
+`fb` rows; the last group may be shorter) instead of on the incoming records; `batch_size = b` asks
+that the rows of the function's results be delivered as records of `b` rows.  So **the value under
+an output key is a column of `b` rows**: the rows of that output of the function, in stream order,
+cut into pieces of `b`.
+
+The reference evaluates the *whole stream* in four steps on plain lists — no generators, no
+laziness.  Every intermediate result is a pair `(values, error)`: the values that exist, and the
+error (if any) after which nothing more exists.  The regrouping steps are the list-level model of
+property C19 (`Rebatch.run`: conservation, order, alignment, sizes are `C19_conserve` … `C19_count`;
+`Rebatch.online`: the complete groups that exist when the stream breaks off, `C19_online`). -/
+namespace Ref
+
+/-- a value as a column of rows -/
+def asCol : Val → Rebatch.Col Val
+  | .list xs => ⟨.list, xs⟩
+  | .tuple xs => ⟨.tuple, xs⟩
+  | _ => ⟨.other, []⟩
+
+/-- a tuple of values as a batch of columns -/
+def asBatch (cols : List Val) : Rebatch.Batch Val := cols.map asCol
+
+def ofBatch (b : Rebatch.Batch Val) : List Val := b.map Impl.ofCol
+
+/-- a stream as a list of events again -/
+def unobserve {α : Type} (p : List α × Option Err) : List (Ev α) :=
+  p.1.map .ok ++ (match p.2 with | some e => [.error e] | none => [])
+
+/-- **regrouping** the rows of the column batches `p.1` into batches of `t` rows (`t = 0`: the
+batches stay as they are).  If the stream ended normally: all rows, the last batch possibly
+shorter (`Rebatch.run`).  If it broke off with an error: only the complete batches
+(`Rebatch.online`), then that error. -/
+def regroup (t nc : Nat) (p : List (List Val) × Option Err) : List (List Val) × Option Err :=
+  if t = 0 then p
+  else match p.2 with
+    | none =>
+      let r := Rebatch.run t nc none (p.1.map asBatch)
+      (r.out.map ofBatch, r.err.map fun k => { kind := k })
+    | some e => ((Rebatch.online t nc none (p.1.map asBatch)).map ofBatch, some e)
+
+/-- **calling** the function on the groups in order (its private state is threaded).  A group whose
+call succeeds contributes the (normalised) tuple of output columns.  A call that raises: with
+skipping on the group — all its rows — is left out and nothing else changes; with skipping off the
+error ends the stream.  `tail`: the error the incoming stream of groups ended with. -/
+def callGroups (ignore : Bool) (op : Op) (tail : Option Err) :
+    Nat → List (List Val) → List (List Val) × Option Err
+  | _, [] => ([], tail)
+  | s, g :: gs =>
+    match callFn op s g with
+    | (.ok v, s') => let r := callGroups ignore op tail s' gs; (normOuts op v :: r.1, r.2)
+    | (.error e, s') => if terminal ignore e then ([], some e) else callGroups ignore op tail s' gs
+
+/-- with skipping on, an element that raised a skippable error is left out (every remaining error is
+terminal; with skipping off nothing changes) -/
+def skipNT {α : Type} (ignore : Bool) : List (Ev α) → List (Ev α)
+  | [] => []
+  | .ok a :: rest => .ok a :: skipNT ignore rest
+  | .error e :: rest => if terminal ignore e then .error e :: skipNT ignore rest else skipNT ignore rest
+
+/-- the four steps up to the regrouped output columns -/
+def batchedCols (ignore : Bool) (op : Op) (s : Nat) (src : List (Ev Val)) :
+    List (List Val) × Option Err :=
+  -- 1. the input columns of the records, up to the first error that ends the stream; with skipping
+  --    on, a record whose inputs cannot be read with a skippable error is left out
+  let p1 := observe (skipNT ignore (mapEv (fun r => liftErr (getInputs op r)) src))
+  -- 2. groups of `fn_batch_size` rows
+  let p2 := regroup op.fnBatch op.inKeys.length p1
+  -- 3. one call per group
+  let p3 := callGroups ignore op p2.2 s p2.1
+  -- 4. batches of `batch_size` rows
+  regroup op.batch op.outKeys.length p3
+
+/-- **The reference for an `apply` / `select` with batch sizes** (`sem` for a whole stream): every
+regrouped tuple of output columns becomes a new record, built from nothing exactly as an un-batched
+`apply` routes a function result `(col₁, …, colₙ)` (`Ref.write`); then the error, if any. -/
+def opEventsB (ignore : Bool) (op : Op) (s : Nat) (src : List (Ev Val)) : List (Ev Val) :=
+  let p := batchedCols ignore op s src
+  cutTerminal ignore
+    (p.1.map (fun cols => liftErr (write op .null (.tuple cols))) ++ unobserve (α := Val) ([], p.2))
+
+/-- the reference for one operator of any kind the theorems cover: operators without batch sizes
+record by record (`opEvents`), `apply` / `select` with batch sizes over the whole stream -/
+def opEventsG (ignore : Bool) (op : Op) (s : Nat) (src : List (Ev Val)) : List (Ev Val) :=
+  if op.fnBatch = 0 ∧ op.batch = 0 then opEvents ignore op s src else opEventsB ignore op s src
+
+def chainEventsG (ignore : Bool) : List Op → List (Ev Val) → List (Ev Val)
+  | [], evs => cutTerminal ignore evs
+  | op :: ops, evs => chainEventsG ignore ops (opEventsG ignore op op.s0 evs)
+
+/-- Boolean form of "these tuples are batches of `nc` equally long `list` / `tuple` columns" -/
+def rectB (nc : Nat) (vs : List (List Val)) : Bool :=
+  vs.all fun cols =>
+    cols.length == nc &&
+    cols.all fun c =>
+      (match c with | .list _ => true | .tuple _ => true | _ => false) &&
+      (asCol c).rows.length == (asCol (cols.headD .none)).rows.length
+
+/-- every error of the stream is terminal, as a Boolean (any element type) -/
+def cleanLB {α : Type} (ignore : Bool) (evs : List (Ev α)) : Bool :=
+  evs.all fun ev => match ev with | .error e => terminal ignore e | .ok _ => true
+
+/-- Boolean form of the side conditions of the batched refinement for one operator (see
+`Lemmas/PipeBatch.lean: BatchedOK`) -/
+def batchedOKB (ignore : Bool) (op : Op) (s : Nat) (src : List (Ev Val)) : Bool :=
+  let l1 := mapEv (fun r => liftErr (getInputs op r)) src
+  let p1 := observe (skipNT ignore l1)
+  let p2 := regroup op.fnBatch op.inKeys.length p1
+  let p3 := callGroups ignore op p2.2 s p2.1
+  cleanB ignore src && decide (0 < op.batch) && decide (0 < op.outKeys.length) &&
+  (op.fnBatch == 0 || (cleanLB ignore l1 && decide (0 < op.inKeys.length) && rectB op.inKeys.length p1.1)) &&
+  rectB op.outKeys.length p3.1
+
+def runOKB (ignore : Bool) : List Op → List (Ev Val) → Bool
+  | [], evs => cleanB ignore evs
+  | op :: ops, evs =>
+    (if op.fnBatch = 0 ∧ op.batch = 0 then cleanB ignore evs
+     else (op.kind == .apply || op.kind == .select) && batchedOKB ignore op op.s0 evs) &&
+    runOKB ignore ops (opEventsG ignore op op.s0 evs)
+
+end Ref
+
 /-! ## The builder (`TreeTransform.select/apply/assign/filter/batch/sink/aggregate`, transform.py:894–1155)
 
 `Except` at construction: what `TreeFn.__post_init__` and the builder methods raise. -/
